@@ -52,6 +52,7 @@ PROPS["C13"] = dict(pkg="chain", level="exploration", stages=[
 PROPS["C05"] = dict(pkg="chain", level="exploration", stages=[
     direct("heavy", "TestC05Heavy"),
     direct("resurrect", "TestC05Resurrect"),
+    direct("pooled-proofs", "TestC05PooledProofs"),
     rapid("rapid", "TestC05", dict(shards=16, checks=100), dict(shards=16, checks=3000, timeout=7000)),
 ])
 
